@@ -149,6 +149,25 @@ pub fn field_case(ctx: &mut Ctx, ls: &Layouts, compressed: bool, kind: &str, pat
         if decoded.as_deref() != Some(expect.as_str()) {
             ctx.violation(&format!("c11/read/{}.{}", kind, path), "decoding the text field does not return the text up to the first NUL", &input, &crate::text::cps(&expect), &format!("{:?}", decoded.map(|d| crate::text::cps(&d))));
         }
+        // … and at the end of its frame: the same frame with another packet behind it in the receive buffer
+        let mut joint = f.clone();
+        let follower = vec![if compressed { 1u8 } else { 4 }, 3, 9, 3];
+        joint.extend_from_slice(&follower);
+        let j2 = joint.clone();
+        let r = guard(move || {
+            let c = insim::net::Codec::new(crate::conn::mode_of(compressed));
+            let mut buf = bytes::BytesMut::from(&j2[..]);
+            let p = c.decode(&mut buf);
+            (p.ok().flatten(), buf.to_vec())
+        });
+        if let Some((Some(p3), rest)) = r {
+            let v = serde_json::to_value(&p3).unwrap();
+            let field = path.split('.').fold(Some(&v), |cur, part| cur.and_then(|c| if c.is_array() { c.get(0).and_then(|x| x.get(part)) } else { c.get(part) }));
+            let decoded = field.and_then(|x| x.as_str()).map(|s| s.to_string());
+            if decoded.as_deref() != Some(expect.as_str()) || rest != follower {
+                ctx.violation(&format!("c11/read-beyond-frame/{}.{}", kind, path), "with another packet behind it in the buffer, the text field is not the text of its own frame (or the following frame is not left intact)", &input, &format!("{} + rest {}", crate::text::cps(&expect), hex(&follower)), &format!("{:?} + rest {}", decoded.map(|d| crate::text::cps(&d)), hex(&rest)));
+            }
+        }
     }
 }
 
